@@ -1,29 +1,27 @@
 (* C03 refutations (model-level witnesses, each replayed on the library by checks/C03.py):
-   canonical operands whose product / sum / power is NOT canonical. *)
+   canonical operands whose product / sum / power is NOT canonical.
+   [bad_result r] = the call returned a value and that value is not canonical. *)
 From SE Require Import Expr.Canon.
 Local Open Scope Z_scope.
+Definition bad_result (r : res expr) : bool := match r with Ok e => negb (canonical e) | _ => false end.
 Definition sx := ESym [120%N].
 (* (x**2)**(1/2) * (x * (x**2)**(1/2))  =  Mul{x:1, x**2:1}   (DESIGN row 36) *)
 Theorem C03_mul_pow_key_refuted :
-  exists a b r, canonical a = true /\ canonical b = true /\ api_run OMul [a; b] = Ok r /\ canonical r = false.
+  exists a b, canonical a = true /\ canonical b = true /\ bad_result (api_run OMul [a; b]) = true.
 Proof.
   exists (EPow (EPow sx (e_int 2)) e_half),
          (EMul (NInt 1) [(sx, e_int 1); (EPow sx (e_int 2), e_half)]).
-  eexists. vm_compute. repeat split; reflexivity.
+  vm_compute. repeat split; reflexivity.
 Qed.
 (* 0**x + 0**x = Mul(2, {0: x}): Pow::is_canonical accepts 0**x, Mul::is_canonical rejects the key 0 *)
 Theorem C03_zero_key_refuted :
-  exists a r, canonical a = true /\ api_run OAdd [a; a] = Ok r /\ canonical r = false.
-Proof. exists (EPow (e_int 0) sx). eexists. vm_compute. repeat split; reflexivity. Qed.
+  exists a, canonical a = true /\ bad_result (api_run OAdd [a; a]) = true.
+Proof. exists (EPow (e_int 0) sx). vm_compute. repeat split; reflexivity. Qed.
 (* pow(0, I) = Pow(0, I) *)
-Theorem C03_pow_zero_complex_refuted :
-  exists r, api_run OPow [e_int 0; ENum I_unit] = Ok r /\ canonical r = false.
-Proof. eexists. vm_compute. split; reflexivity. Qed.
-(* (I*sqrt(2))**(2/3) * z keeps a Mul key with a Complex coefficient *)
+Theorem C03_pow_zero_complex_refuted : bad_result (api_run OPow [e_int 0; ENum I_unit]) = true.
+Proof. vm_compute. reflexivity. Qed.
+(* z * (I*sqrt(2))**(2/3) keeps a Mul key with a Complex coefficient and a numeric exponent *)
 Theorem C03_complex_coef_key_refuted :
-  exists a r, canonical a = true /\ api_run OPow [a; ENum (NRat 2 3)] = Ok r /\ canonical r = true /\
-    exists r2, api_run OMul [ESym [122%N]; r] = Ok r2 /\ canonical r2 = false.
-Proof.
-  exists (EMul I_unit [(e_int 2, e_half)]). eexists. vm_compute. repeat split; try reflexivity.
-  eexists. split; reflexivity.
-Qed.
+  exists a, canonical a = true /\
+    bad_result (match api_run OPow [a; ENum (NRat 2 3)] with Ok p => api_run OMul [ESym [122%N]; p] | e => e end) = true.
+Proof. exists (EMul I_unit [(e_int 2, e_half)]). vm_compute. repeat split; reflexivity. Qed.
